@@ -78,7 +78,7 @@ func Unfragment(l lm.List) lm.List {
 		for changed {
 			changed = false
 			for j := i + 1; j < len(o); j++ {
-				if dead[j] || o[j].T != o[i].T {
+				if dead[j] || lm.Shown(o[j].T) != lm.Shown(o[i].T) {
 					continue
 				}
 				if o[j].S <= o[i].E {
